@@ -105,6 +105,30 @@ Section GenTotalS.
   Qed.
 End GenTotalS.
 
+(** well formed, referring to declared enums / fragments only, and printable ([format.Source]) *)
+Definition TyOKS (frs : list fragdef) (st : gstate) (t : gotype) : Prop := TyOKC frs st t /\ type_syntax_ok t = true.
+
+Lemma TyOKS_ext frs a b t : ExtC a b -> TyOKS frs a t -> TyOKS frs b t.
+Proof. intros He [H1 H2]. split; [apply (TyOKC_ext frs a b t He H1) | exact H2]. Qed.
+Lemma TyOKS_string frs st : TyOKS frs st GString.
+Proof. split; [apply TyOKC_string | reflexivity]. Qed.
+Lemma TyOKS_fragref frs st f : In f (map fr_name frs) -> TyOKS frs st (GPtr (GFragRef f)).
+Proof. intros H. split; [apply TyOKC_fragref; exact H | reflexivity]. Qed.
+Lemma TyOKS_ptr frs st t : TyOKS frs st t -> TyOKS frs st (GPtr t).
+Proof. intros H. exact H. Qed.
+Lemma TyOKS_wrap frs st ft core : TyOKS frs st core -> TyOKS frs st (wrap ft false core true).
+Proof. intros [H1 H2]. split; [apply TyOKC_wrap; exact H1 | rewrite syntax_wrap; exact H2]. Qed.
+
+Lemma fs_syntax_f nm fields :
+  (forall k T dash, In (k, (T, dash)) fields -> type_syntax_ok T = true) ->
+  forallb (fun f : name * gotag * gotype => match snd (fst f) with TagBoth _ => false | _ => true end && type_syntax_ok (snd f))
+          (sort_fields (map (mk_field_f nm) fields)) = true.
+Proof.
+  intros H. apply forallb_forall. intros fld Hf. apply In_fs_f in Hf as [[k [T dash]] [Hi E]]. subst fld.
+  unfold mk_field_f. cbn [fst snd]. rewrite (H _ _ _ Hi), andb_true_r.
+  destruct dash; [reflexivity|]. destruct (negb (equal_fold (nm k) (untk k))); reflexivity.
+Qed.
+
 (** ** the main induction *)
 Section MainS.
   Variable S : schema.
@@ -116,6 +140,8 @@ Section MainS.
   Variables Keys Dash : list name.
   Hypothesis HDash : forall k, In k Dash -> starts_uu k = false.
   Hypothesis HComp : incl (composites S) Dash.
+  (** the Go name of an enum type is not a keyword *)
+  Hypothesis Hen : forall n n' vs, lookup_type S n = Some (DEnum n' vs) -> go_keyword (en n) = false.
   Notation gen := (gen_named_s S fragTypes en cn).
   Notation SelsInD := (SelsIn Keys Dash).
 
@@ -129,11 +155,25 @@ Section MainS.
         type_syntax_ok core = true.
   Notation GoodS := (GoodDP S frags_gen_s).
 
+  (** the state grows, and only by Go names of enum types of the schema *)
+  Definition EnumName (x : name) : Prop := exists n n' vs, lookup_type S n = Some (DEnum n' vs) /\ x = en n.
+  Definition ExtS (st st' : gstate) : Prop :=
+    ExtC st st' /\ (forall x, In x (enums_of st') -> In x (enums_of st) \/ EnumName x).
+  Lemma ExtS_refl st : ExtS st st.
+  Proof. split; [apply ExtC_refl | intros x H; left; exact H]. Qed.
+  Lemma ExtS_trans a b c : ExtS a b -> ExtS b c -> ExtS a c.
+  Proof.
+    intros [A1 A2] [B1 B2]. split; [apply (ExtC_trans _ _ _ A1 B1)|].
+    intros x Hx. destruct (B2 x Hx) as [H|H]; [apply (A2 x H) | right; exact H].
+  Qed.
+  Lemma TyOKS_extS a b t : ExtS a b -> TyOKS frs a t -> TyOKS frs b t.
+  Proof. intros [He _]. apply (TyOKS_ext frs a b t He). Qed.
+
   (** scalars and enums *)
   Lemma gen_leaf_good_s fuel mm st core b st' :
     leaf_type S mm = true -> composite S mm = false ->
     gen fuel mm [] st = Ok (core, b, st') ->
-    b = true /\ ExtC st st' /\ TyOKC frs st' core /\ GoodS mm [] core.
+    b = true /\ ExtS st st' /\ TyOKS frs st' core /\ GoodS mm [] core.
   Proof.
     intros Hleaf Hncomp Hg. destruct fuel as [|fuel]; [discriminate|]. simpl in Hg. unfold gen_named_body_s in Hg.
     assert (Hobjpart : forall core0, forall P : program, forall tn rfs, objc S [] mm tn rfs = true ->
@@ -141,18 +181,22 @@ Section MainS.
     { intros core0 P tn rfs H. unfold objc in H. rewrite Hncomp in H. discriminate. }
     unfold leaf_type in Hleaf.
     destruct (builtin_of mm) as [bi|] eqn:Eb.
-    - inversion Hg; subst core b st'. split; [reflexivity|]. split; [apply ExtC_refl|]. split.
-      { destruct bi; (split; [reflexivity|]; split; intros x []). }
+    - inversion Hg; subst core b st'. split; [reflexivity|]. split; [apply ExtS_refl|]. split.
+      { split; [destruct bi; (split; [reflexivity|]; split; intros x []) | destruct bi; reflexivity]. }
       intros P HP Hsyn. split; [|apply Hobjpart].
       intros l Hl. unfold leafc, leaf_conf in Hl. rewrite Eb in Hl. rewrite andb_true_r in Hl.
       destruct bi; destruct l as [| |bb|s|[z|n]]; try discriminate;
         (split; [discriminate|]; eapply (decodes_intro P _ _ _ 1); [reflexivity | intros pl; simpl; reflexivity]).
     - destruct (lookup_type S mm) as [[n ifs fs|n fs|n ms|n vs|n]|] eqn:El; try discriminate.
       + inversion Hg; subst core b st'. split; [reflexivity|]. split.
-        { unfold ExtC, enums_of, emit_enum_s. destruct (assoc (en mm) (g_enums st)); [apply incl_refl|]. simpl.
-          rewrite map_app. apply incl_appl. apply incl_refl. }
+        { split.
+          - unfold ExtC, enums_of, emit_enum_s. destruct (assoc (en mm) (g_enums st)); [apply incl_refl|]. simpl.
+            rewrite map_app. apply incl_appl. apply incl_refl.
+          - intros x. unfold enums_of, emit_enum_s. destruct (assoc (en mm) (g_enums st)); [intros H; left; exact H|]. simpl.
+            rewrite map_app. intros H. apply in_app_iff in H as [H|[H|[]]]; [left; exact H|]. right. exists mm, n, vs. split; [exact El | symmetry; exact H]. }
         split.
-        { split; [reflexivity|]. split; [|intros x []]. intros x [Hx|[]]. subst x.
+        { split; [|simpl; rewrite (Hen mm n vs El); reflexivity].
+          split; [reflexivity|]. split; [|intros x []]. intros x [Hx|[]]. subst x.
           unfold enums_of, emit_enum_s. destruct (assoc (en mm) (g_enums st)) eqn:Ea.
           - apply (assoc_Some_In_keys _ _ _ Ea).
           - simpl. rewrite map_app. apply in_app_iff. right. left. reflexivity. }
@@ -178,7 +222,7 @@ Section MainS.
     forall fuel mm st core b st' f',
       all_structs S (env_local S frs) f' mm sels = true -> SelsInD sels ->
       gen fuel mm sels st = Ok (core, b, st') ->
-      b = true /\ ExtC st st' /\ TyOKC frs st' core /\ GoodS mm sels core /\ struct_like core.
+      b = true /\ ExtS st st' /\ TyOKS frs st' core /\ GoodS mm sels core /\ struct_like core.
   Proof.
     induction N as [|N IH]; intros sels Hsz fuel mm st core b st' f' Ha Hsel Hg; [lia|].
     destruct fuel as [|fuel]; [discriminate|]. destruct f' as [|f']; [discriminate|].
@@ -202,7 +246,7 @@ Section MainS.
     (* the recursive calls *)
     assert (Hrec : forall mm' sub st0 core0 b0 st0',
                ClientGenGoodS.sub_call S mm sels mm' sub -> gen fuel mm' sub st0 = Ok (core0, b0, st0') ->
-               b0 = true /\ ExtC st0 st0' /\ TyOKC frs st0' core0 /\ GoodS mm' sub core0).
+               b0 = true /\ ExtS st0 st0' /\ TyOKS frs st0' core0 /\ GoodS mm' sub core0).
     { intros mm' sub st0 core0 b0 st0' Hsc Hg0. rewrite forallb_forall in Hall.
       destruct Hsc as [[a [f [sub1 [Hs [Htnf [Esub [ft [Eft Eu]]]]]]]]|[c [sub0 [Hs [Emm Esub]]]]].
       - pose proof (Hall _ Hs) as Has. cbv beta iota in Has. rewrite Htnf, Eft, Eu in Has.
@@ -233,13 +277,13 @@ Section MainS.
     { intros f c body Hs. pose proof (Hloc _ Hs) as Hsl. simpl in Hsl. apply andb_true_iff in Hsl as [_ Hsl].
       destruct (find_frag frs f) as [fr|] eqn:Ef; [|discriminate]. destruct (find_frag_In_s _ _ Ef) as [H1 H2].
       rewrite <- H2. apply in_map. exact H1. }
-    pose proof (ClientGenGoodS.loop_inv S frs (GoodS) (TyOKC frs) ExtC ExtC_refl ExtC_trans (TyOKC_ext frs) (TyOKC_string frs)
-                         (TyOKC_fragref frs) (TyOKC_ptr frs) (TyOKC_wrap frs) (gen fuel) mm d sels hasTn Hrec Hl Hspreads Hsamef Hloc
+    pose proof (ClientGenGoodS.loop_inv S frs (GoodS) (TyOKS frs) ExtS ExtS_refl ExtS_trans TyOKS_extS (TyOKS_string frs)
+                         (TyOKS_fragref frs) (TyOKS_ptr frs) (TyOKS_wrap frs) (gen fuel) mm d sels hasTn Hrec Hl Hspreads Hsamef Hloc
                          st sels [] ([], [], [], [], st) (fields, conds, done, fdone, st1) eq_refl
-                         (ClientGenGoodS.inv_init S frs (GoodS) (TyOKC frs) ExtC ExtC_refl mm sels st) Eloop) as HInv.
+                         (ClientGenGoodS.inv_init S frs (GoodS) (TyOKS frs) ExtS ExtS_refl mm sels st) Eloop) as HInv.
     unfold ClientGenGoodS.Inv in HInv. destruct HInv as (I1 & I2 & I3 & I4 & I5 & I8 & I6 & I7).
     assert (F3 : forall k T dash, In (k, (T, dash)) fields -> entry_src S (GoodS) mm sels sels k T dash) by (intros k T dash H; apply (I3 _ _ _ H)).
-    assert (F3' : forall k T dash, In (k, (T, dash)) fields -> TyOKC frs st1 T) by (intros k T dash H; apply (I3 _ _ _ H)).
+    assert (F3' : forall k T dash, In (k, (T, dash)) fields -> TyOKS frs st1 T) by (intros k T dash H; apply (I3 _ _ _ H)).
     assert (F4 : forall s, In s sels -> entry_cov S (GoodS) mm sels fields s) by (intros s H; apply (I4 _ H)).
     assert (F5 : forall s, In s sels -> cond_cov frs mm conds s) by (intros s H; apply (I4 _ H)).
     set (tnKey := match first_typename sels with Some k => k | None => typename_name end) in *.
@@ -273,16 +317,17 @@ Section MainS.
       - exists (g_count st1), {| g_enums := g_enums st1; g_count := (g_count st1 + 1)%N; g_json := true |}.
         subst core b st'. split; [reflexivity|]. split; [reflexivity|]. split; reflexivity. }
     destruct Hres as [idx [st2 [Ecore [Eb [Est Een]]]]]. subst b st'.
-    split; [reflexivity|]. split; [unfold ExtC; rewrite Een; exact I7|]. split.
+    split; [reflexivity|]. split; [destruct I7 as [I7a I7b]; split; [unfold ExtC; rewrite Een; exact I7a | rewrite Een; exact I7b]|]. split.
     { (* well-formedness *)
-      unfold TyOKC. rewrite Een. rewrite Ecore. split.
+      unfold TyOKS, TyOKC. rewrite Een. rewrite Ecore. split; [split; [|split]|].
       - apply (ClientGenFinalS.final_wf_shape S frs HS (GoodS) mm d sels fields conds I1 F4 I6 Hl nm Hnm Hloc Htn idx).
         intros k T dash H. apply (F3' _ _ _ H).
-      - split.
-        + apply (ClientGenFinalS.final_refs S mm d sels fields conds nm enum_refs (enums_of st1) idx); [reflexivity | reflexivity|].
-          intros k T dash H. apply (F3' _ _ _ H).
-        + apply (ClientGenFinalS.final_refs S mm d sels fields conds nm frag_refs (map fr_name frs) idx); [reflexivity | reflexivity|].
-          intros k T dash H. apply (F3' _ _ _ H). }
+      - apply (ClientGenFinalS.final_refs S mm d sels fields conds nm enum_refs (enums_of st1) idx); [reflexivity | reflexivity|].
+        intros k T dash H. apply (F3' _ _ _ H).
+      - apply (ClientGenFinalS.final_refs S mm d sels fields conds nm frag_refs (map fr_name frs) idx); [reflexivity | reflexivity|].
+        intros k T dash H. apply (F3' _ _ _ H).
+      - assert (Hsy : forall k T dash, In (k, (T, dash)) fields -> type_syntax_ok T = true) by (intros k T dash H; apply (F3' _ _ _ H)).
+        destruct conds; cbn [type_syntax_ok]; rewrite syntax_fields; apply (fs_syntax_f nm fields Hsy). }
     split.
     { (* decoding *)
       intros P HP Hsyn. split.
@@ -306,3 +351,56 @@ Section MainS.
     rewrite Ecore. destruct conds; [left; eexists; reflexivity | right; do 4 eexists; reflexivity].
   Qed.
 End MainS.
+
+(** ** all definitions of a document *)
+Section ProcessS.
+  Variable S : schema.
+  Variable frs : list fragdef.
+  Hypothesis HS : schema_ok S = true.
+  Let fragTypes := map (fun f => (fr_name f, fr_cond f)) frs.
+  Variable en : name -> name.
+  Variable cn : name -> name -> name.
+  Variables Keys Dash : list name.
+  Hypothesis HDash : forall k, In k Dash -> starts_uu k = false.
+  Hypothesis HComp : incl (composites S) Dash.
+  Hypothesis Hen : forall n n' vs, lookup_type S n = Some (DEnum n' vs) -> go_keyword (en n) = false.
+  Notation gen := (gen_named_s S fragTypes en cn).
+  Variable fuel : nat.
+
+  Definition def_ok_s (def : option name * list selection * option name) : Prop :=
+    exists r dn, fst (fst def) = Some r /\ snd def = Some dn /\
+                 all_structs S (env_local S frs) (sel_fuel (snd (fst def))) r (snd (fst def)) = true /\
+                 SelsIn Keys Dash (snd (fst def)) /\
+                 sels_size (snd (fst def)) < fuel.
+
+  Definition def_res_s (st' : gstate) (def : option name * list selection * option name) (td : typedefn) : Prop :=
+    exists r dn core st0 st0',
+      fst (fst def) = Some r /\ snd def = Some dn /\
+      gen fuel r (snd (fst def)) st0 = Ok (core, true, st0') /\ td = type_def dn core /\
+      ExtS S en st0' st' /\ TyOKS frs st0' core /\
+      GoodDP S (frags_gen_s S frs en cn Keys Dash) r (snd (fst def)) core /\ struct_like core.
+
+  Lemma process_defs_ok_s defs : forall st out,
+    Forall def_ok_s defs ->
+    exists st' outs,
+      process_defs_s S fragTypes en cn fuel defs st out false = Ok (st', out ++ outs, false) /\
+      ExtS S en st st' /\ Forall2 (def_res_s st') defs outs.
+  Proof.
+    induction defs as [|[[root sels] dname] rest IH]; intros st out Hok.
+    - exists st, []. rewrite app_nil_r. split; [reflexivity|]. split; [apply (ExtS_refl S en) | constructor].
+    - inversion Hok as [|? ? [r [dn [Hr [Hdn [Ha [Hsi Hsz]]]]]] Hok']; subst. cbn [fst snd] in Hr, Hdn, Ha, Hsi, Hsz. subst root dname.
+      cbn [process_defs_s].
+      destruct (gen_total_s S frs HS en cn fuel r sels st (sel_fuel sels) Ha Hsz) as [core [st1 Hg]].
+      fold fragTypes in Hg. rewrite Hg.
+      destruct (gen_good_s S frs HS en cn Keys Dash HDash HComp Hen (Datatypes.S (sels_size sels)) sels (Nat.lt_succ_diag_r _)
+                           fuel r st core true st1 (sel_fuel sels) Ha Hsi Hg) as (_ & Hext & Hty & Hgood & Hsl).
+      destruct (IH st1 (out ++ [type_def dn core]) Hok') as [st' [outs [Hp [Hext' Hres]]]].
+      exists st', (type_def dn core :: outs). split; [rewrite Hp, <- app_assoc; reflexivity|].
+      split; [apply ((ExtS_trans S en) _ _ _ Hext Hext')|].
+      assert (Hmono : forall def td, def_res_s st1 def td -> def_res_s st' def td).
+      { intros def td [r0 [dn0 [c0 [s0 [s0' [H1 [H2 [H3 [H4 [H5 H6]]]]]]]]]].
+        exists r0, dn0, c0, s0, s0'. repeat (split; [assumption|]). split; [apply ((ExtS_trans S en) _ _ _ H5 Hext') | exact H6]. }
+      constructor; [|exact Hres].
+      exists r, dn, core, st, st1. cbn [fst snd]. repeat (split; [first [reflexivity | assumption]|]). exact Hsl.
+  Qed.
+End ProcessS.
